@@ -102,6 +102,11 @@ func cmdVerify(args []string) {
 }
 
 func hasProp(c *Contract, p string) bool {
+	// C05 (no panic, no hang) is served by the safety and termination obligations of every function
+	// whose body is verified
+	if p == "C05" && (c.Kind == "func" || c.Kind == "closure") && !c.Trusted {
+		return true
+	}
 	for _, x := range c.Props {
 		if x == p {
 			return true
